@@ -31,7 +31,7 @@ SHARDS = {'quick': 16, 'thorough': 16}
 BUDGET_S = {'quick': 40, 'thorough': 840}
 TIMEOUT_S = {'quick': 600, 'thorough': 7200}
 N_HISTORIES = {'quick': 16, 'thorough': 200}
-MIN_OBS = {'nonforced_runs_judged': {'quick': 30, 'thorough': 600}}
+MIN_OBS = {'nonforced_runs_judged': {'quick': 12, 'thorough': 200}}
 
 
 def header_expected(root: str, module: str) -> str:
